@@ -1061,6 +1061,9 @@ impl<'a> GeneratorState<'a> {
 
     fn generate_asm_statement(&mut self, s: &str, size: Option<u32>) -> Result<(), Error> {
         self.inline(s, size)?;
+        // Inline assembler may change the registers and the flags
+        self.flags = FlagsState::Unknown;
+        self.carry_flag_ok = false;
         Ok(())
     }
 
